@@ -739,11 +739,13 @@ def child_build_budget(texts):
                     create_table(g, itemset_type=it)
             except Exception:
                 pass
+            if clock.exceeded:  # the injected exception may surface as another type
+                return False
     except StepBudgetExceeded:
         return False
     finally:
         clock.stop()
-    return True
+    return not clock.exceeded
 
 
 def make_scenario(rng, families):
